@@ -101,3 +101,49 @@ def css_keywords():
         out[k] = (round(v.red * 255), round(v.green * 255), round(v.blue * 255))
     out.setdefault("rebeccapurple", (0x66, 0x33, 0x99))
     return out
+
+
+# ---------------------------------------------------------------- OKLab / OKLCH (Ottosson 2020), constants typed from the publication
+import math as _pm
+
+OK_M1 = ((0.4122214708, 0.5363325363, 0.0514459929),
+         (0.2119034982, 0.6806995451, 0.1073969566),
+         (0.0883024619, 0.2817188376, 0.6299787005))
+OK_M2 = ((0.2104542553, 0.7936177850, -0.0040720468),
+         (1.9779984951, -2.4285922050, 0.4505937099),
+         (0.0259040371, 0.7827717662, -0.8086757660))
+OK_M2_INV = ((1.0, 0.3963377774, 0.2158037573),
+             (1.0, -0.1055613458, -0.0638541728),
+             (1.0, -0.0894841775, -1.2914855480))
+OK_M1_INV = ((4.0767416621, -3.3077115913, 0.2309699292),
+             (-1.2684380046, 2.6097574011, -0.3413193965),
+             (-0.0041960863, -0.7034186147, 1.7076147010))
+
+
+def srgb_lin(c):
+    """sRGB (IEC 61966-2-1) transfer function, channel in [0,1]"""
+    return ite(c <= 0.04045, c / 12.92, ((c + 0.055) / 1.055) ** 2.4)
+
+
+def cbrt(x):
+    """real cube root (sign preserving); x ** (1/3) for x >= 0"""
+    return ite(x >= 0, smax(x, 0) ** (1 / 3), -(smax(-x, 0) ** (1 / 3)))
+
+
+def oklab_from_rgb(rgb):
+    r, g, b = [srgb_lin(v / 255.0) for v in rgb]
+    lms = [m[0] * r + m[1] * g + m[2] * b for m in OK_M1]
+    l_, m_, s_ = [cbrt(v) for v in lms]
+    return tuple(m[0] * l_ + m[1] * m_ + m[2] * s_ for m in OK_M2)
+
+
+def oklab_to_linear(L, a, b):
+    """OKLab -> linear sRGB (unclipped)"""
+    lms_ = [m[0] * L + m[1] * a + m[2] * b for m in OK_M2_INV]
+    lms = [v * v * v for v in lms_]
+    return tuple(m[0] * lms[0] + m[1] * lms[1] + m[2] * lms[2] for m in OK_M1_INV)
+
+
+def srgb_gamma(c):
+    """linear -> sRGB transfer function, channel in [0,1]"""
+    return ite(c <= 0.0031308, 12.92 * c, 1.055 * (smax(c, 0) ** (1.0 / 2.4)) - 0.055)
